@@ -211,6 +211,11 @@ fn python_leg(st: &Selected, ops: &StateOps, root: &Path, python: &str) -> BTree
                                     Par::Accept(got[2].clone())
                                 } else if inl.ancestry(cls).iter().any(|a| a.id == t.name) {
                                     Par::AcceptDeeper(cls.to_string())
+                                } else if alias_path(&inl, cls, &t.name) {
+                                    // alias children (no fields of their own) are transparent in
+                                    // the Python backend by documented design: the object of the
+                                    // nearest non-alias ancestor is returned; not comparable
+                                    Par::Absent
                                 } else {
                                     // the bytes were read as another branch of the tree
                                     Par::Reject(format!("parsed-as:{cls}"))
@@ -232,6 +237,16 @@ fn python_leg(st: &Selected, ops: &StateOps, root: &Path, python: &str) -> BTree
         }
     }
     out
+}
+
+/// `to` is a descendant of `from` and every declaration below `from` on the way down to `to`
+/// declares nothing but (at most) a payload
+fn alias_path(d: &Desc, from: &str, to: &str) -> bool {
+    let chain = d.ancestry(to);
+    match chain.iter().position(|a| a.id == from) {
+        Some(k) if k > 0 => chain[..k].iter().all(|a| a.fields().iter().all(|f| f.is_payload())),
+        _ => false,
+    }
 }
 
 // ------------------------------------------------------------------ shared helpers
@@ -515,7 +530,9 @@ pub fn check(tier: Tier) -> i32 {
             Some(i) => i,
             None => continue,
         };
-        if [Lang::Python, Lang::Cxx, Lang::Java].iter().all(|l| unsupported(*l, &inl).is_none()) {
+        // (structs that reach themselves through an array are compiled by the Rust backend only:
+        // KF-06 Java, KF-30 Python, KF-38 C++ — not in the intersection)
+        if [Lang::Python, Lang::Cxx, Lang::Java].iter().all(|l| unsupported(*l, &inl).is_none()) && !cxxgen::has_struct_cycle(&inl) {
             eligible.push(st);
         }
     }
@@ -587,6 +604,7 @@ pub fn check(tier: Tier) -> i32 {
     let (py, cx, jv, compile_errors) = (l.py, l.cx, l.jv, l.compile_errors);
     // 5. compare
     let mut rep = Reporter::new("C07");
+    rep.max_replays = 120;
     let mut counters: BTreeMap<String, usize> = BTreeMap::new();
     let mut samples: Vec<J> = vec![];
     let mut inc = |k: &str, n: usize| *counters.entry(k.to_string()).or_default() += n;
@@ -619,6 +637,12 @@ pub fn check(tier: Tier) -> i32 {
                 let mut markers: Vec<&str> = classes::construct_classes(&inl, &t.name).into_iter().filter(|c| ["padded-array", "payload-with-modifier", "enum-elements", "struct-elements", "static-array", "child", "body", "sized-array", "counted-array", "unsized-array"].contains(c)).collect();
                 markers.extend(javagen::java_markers(&inl, &t.name));
                 markers.extend(cxxgen::cxx_markers(&inl, &t.name));
+                if javagen::never_selected_child(&inl, &t.name) {
+                    markers.push("child-without-constraints-or-constant-size");
+                }
+                if inl.decls.iter().any(|d| matches!(&d.kind, DeclKind::Enum { tags, .. } if !tags.iter().any(|t| matches!(t, Tag::Value { .. })))) {
+                    markers.push("range-only-enum");
+                }
                 markers.sort();
                 markers.dedup();
                 let has_children = inl.children(&t.name).next().is_some();
@@ -646,7 +670,7 @@ pub fn check(tier: Tier) -> i32 {
                         match (&obs[*k], &want) {
                             (Ser::Bytes(b), Some(w)) if b == w => with_ref.push(BACKENDS[*k]),
                             (Ser::Bytes(_), _) => against.push(format!("{}:other-bytes", BACKENDS[*k])),
-                            (Ser::Error(e), _) => against.push(format!("{}:{}", BACKENDS[*k], e.split(':').next().unwrap_or(""))),
+                            (Ser::Error(e), _) => against.push(format!("{}:{}", BACKENDS[*k], e.split(':').take(2).collect::<Vec<_>>().join(":"))),
                             _ => {}
                         }
                     }
@@ -657,7 +681,24 @@ pub fn check(tier: Tier) -> i32 {
                     });
                 }
                 // parsers
+                // siblings (at any level of the path from the root) of a child type
+                let mut rivals: Vec<String> = vec![];
+                {
+                    let chain = inl.ancestry(&t.name);
+                    for w in chain.windows(2) {
+                        for sib in inl.children(&w[1].id) {
+                            if sib.id != w[0].id {
+                                rivals.push(sib.id.clone());
+                            }
+                        }
+                    }
+                }
                 for (i, b) in t.inputs.iter().enumerate() {
+                    // an input that a sibling branch accepts as well has no single reading
+                    if !rivals.is_empty() && rivals.iter().any(|r| m.decode_full(r, b).is_ok()) && m.decode_full(&t.name, b).is_ok() {
+                        inc("inputs-skipped-two-branches-fit", 1);
+                        continue;
+                    }
                     let obs: [Par; 4] = [t.rust_dec.get(i).cloned().unwrap_or(Par::Absent), p.1.get(i).cloned().unwrap_or(Par::Absent), c.1.get(i).cloned().unwrap_or(Par::Absent), j.1.get(i).cloned().unwrap_or(Par::Absent)];
                     inc("inputs-compared", 1);
                     // for a type with children Python and Java specialise (they parse the child's
@@ -699,8 +740,21 @@ pub fn check(tier: Tier) -> i32 {
                     inc("outcome:parsers-disagree", 1);
                     let reference = if t.is_struct { m.decode(&t.name, b).map(|(v, n)| if n == b.len() { Ok(v) } else { Err("trailing".to_string()) }).unwrap_or_else(|f| Err(format!("{f:?}"))) } else { m.decode_full(&t.name, b).map_err(|f| format!("{f:?}")) };
                     let refs = match &reference {
-                        Ok(_) => "accepts".to_string(),
-                        Err(f) => format!("rejects{f}"),
+                        Ok(v) => {
+                            if has_children {
+                                format!("accepts children={}", javagen::child_status(&m, &t.name, v))
+                            } else {
+                                "accepts".to_string()
+                            }
+                        }
+                        Err(f) => {
+                            // would the reference accept if the elements of the outermost arrays
+                            // were not looked at? (labels the lazily slicing C++ views)
+                            m.lenient_elems.set(true);
+                            let lenient = if t.is_struct { false } else { m.decode_full(&t.name, b).is_ok() };
+                            m.lenient_elems.set(false);
+                            format!("rejects{f}{}", if lenient { " only-because-of-array-elements" } else { "" })
+                        }
                     };
                     let what = if !died.is_empty() {
                         format!("a-parser-died {died:?}")
